@@ -3,6 +3,7 @@ package props
 import (
 	"fmt"
 	"reflect"
+	"strings"
 	"testing"
 
 	"pgregory.net/rapid"
@@ -112,10 +113,19 @@ func evalC12(p prog.Program) Outcome {
 					if !q.Attached {
 						continue
 					}
-					for id := range q.D.AllPresences() {
+					for id, data := range q.D.AllPresences() {
 						if id != q.ID {
 							return &prog.Failure{Kind: "PRESENCE-ON-PRESENCELESS", Msg: fmt.Sprintf(
 								"c%d shows presence of another actor %s on a presenceless document", q.Idx, id)}
+						}
+						// its own entry can only stem from the initial presence
+						// it attached with ({"name":"c<i>"}): every Update on an
+						// attached presenceless document drops its presence part
+						for k, v := range data {
+							if (strings.HasPrefix(v, "v") || strings.HasPrefix(v, "m")) && len(v) > 1 && v[1] >= '0' && v[1] <= '9' {
+								return &prog.Failure{Kind: "PRESENCE-KEPT-LOCALLY", Msg: fmt.Sprintf(
+									"c%d keeps %s=%s, set by an Update after attaching, in its own view of a presenceless document (nobody else sees it)", q.Idx, k, v)}
+							}
 						}
 					}
 				}
@@ -175,7 +185,7 @@ func genC12() *rapid.Generator[prog.Program] {
 	mk := func(snap bool) *rapid.Generator[prog.Program] {
 		return prog.Gen(prog.GenOpts{
 			MinClients: 2, MaxClients: pick(4, 5), MaxSteps: pick(30, 50), MaxTail: 6,
-			EditOps:  []string{"pset", "pset", "pset", "pclear", "rootset", "cinc", "tedit", "oset"},
+			EditOps:  []string{"pset", "pset", "pset", "pclear", "pmix", "pmix", "rootset", "cinc", "tedit", "oset"},
 			SchedOps: sched, SyncWeight: 8, OfflineBias: true, Snapshots: snap,
 		})
 	}
